@@ -385,10 +385,10 @@ func main() {
 		return
 	}
 	var cases []Case
-	for i := 0; i < r.Pick(1500, 60000); i++ {
+	for i := 0; i < r.Pick(8000, 250000); i++ {
 		cases = append(cases, Case{Kind: "program", Stream: fmt.Sprintf("c13/program/%d", i)})
 	}
-	for i := 0; i < r.Pick(4, 100); i++ {
+	for i := 0; i < r.Pick(20, 400); i++ {
 		cases = append(cases, Case{Kind: "keccak", Stream: fmt.Sprintf("c13/keccak/%d", i)})
 	}
 	cases = append(cases, Case{Kind: "rng-errors", Stream: "c13/rng-errors"})
